@@ -151,6 +151,16 @@ let with_stack (stack : string) (dl : deadline) (orc : oracles) (repair : bool) 
       | Ok (_, (_, w)) -> fin w
       | Panic -> Panic
       | OutOfFuel -> OutOfFuel)
+  | "replace_twice" -> (
+      (* the same Replace adapter (its state carried over) runs the diff twice *)
+      match r.run (replace_world pw !dbg) (rstate0, plain0) with
+      | Ok st -> (
+          match r.run (replace_world pw !dbg) st with
+          | Ok (_, w) -> fin w
+          | Panic -> Panic
+          | OutOfFuel -> OutOfFuel)
+      | Panic -> Panic
+      | OutOfFuel -> OutOfFuel)
   | "replace_compact" -> (
       (* the adapters nested the other way round: Replace hands replace events to Compact *)
       match r.run (replace_world (compact_world pw orc.o_on repair) !dbg) (rstate0, ([], plain0)) with
